@@ -45,9 +45,16 @@ def rneDiv (n d : Nat) : Nat :=
   let r := n % d
   if 2 * r < d then q else if d < 2 * r then q + 1 else if q % 2 = 0 then q else q + 1
 
+/-- ⌊log₂ n⌋ for 0 < n < 2^64 (structural recursion on fuel so that the kernel can evaluate it) -/
+def ilog2Aux : Nat → Nat → Nat → Nat
+  | 0, _, acc => acc
+  | fuel + 1, n, acc => if n ≥ 2 then ilog2Aux fuel (n / 2) (acc + 1) else acc
+
+def ilog2 (n : Nat) : Nat := ilog2Aux 64 n 0
+
 /-- for 0 < nsec < 10^9: the j ≥ 1 with 2^(−j) ≤ nsec/10^9 < 2^(1−j) -/
 def fracExp (nsec : Nat) : Nat :=
-  let b := nsec.log2
+  let b := ilog2 nsec
   if nsec * 2 ^ (29 - b) ≥ 1000000000 then 29 - b else 30 - b
 
 /-- `int64(math.RoundToEven(float64(sec) + float64(nsec)/1e9))` for 0 ≤ sec < 2^53, 0 ≤ nsec < 10^9 -/
@@ -59,7 +66,7 @@ def roundSecs (sec nsec : Nat) : Nat :=
     let m := rneDiv (nsec * 2 ^ (52 + j)) 1000000000
     if sec = 0 then rne m (52 + j)
     else
-      let k := sec.log2
+      let k := ilog2 sec
       -- exact sum in units of 2^(−(52+j)); the float64 sum is a multiple of 2^(k−52)
       let q := rne (sec * 2 ^ (52 + j) + m) (k + j)
       if k ≤ 52 then rne q (52 - k) else q * 2 ^ (k - 52)
